@@ -333,7 +333,13 @@ Fixpoint resolve_http (d : decl) (fs : list (front * Z * bool)) (st : lstate) : 
     end
   end.
 
-(** [populate_clusters], TCP arm *)
+(** [populate_clusters], TCP arm.  [stream_address_owners] (TCP/UDP address -> the cluster
+    that declared it) is read off the clusters populated so far; the frontends of the cluster
+    being populated are its own *)
+Definition owned_by_other (st : lstate) (cid a : bytes) : bool :=
+  existsb (fun cc => existsb (fun t => bytes_eqb (t_addr t) a && negb (bytes_eqb (t_cluster t) cid)) (cc_tfronts cc))
+          (ls_clusters st).
+
 Fixpoint resolve_tcp (d : decl) (ts : list tfront) (st : lstate) : res (list tfront * lstate) :=
   match ts with
   | [] => Ok ([], st)
@@ -343,6 +349,7 @@ Fixpoint resolve_tcp (d : decl) (ts : list tfront) (st : lstate) : res (list tfr
       | Err e => Err e
       | Ok (xs, st'') => Ok (mk_tfront udp (t_cluster t) (t_addr t) (t_tags t) :: xs, st'')
       end in
+    if owned_by_other st (t_cluster t) (t_addr t) then Err EDuplicateFrontend else
     match known_proto st (t_addr t) with
     | Some p =>
       if (p =? 0) || (p =? 1) then Err EWrongFrontendProtocol
@@ -543,6 +550,12 @@ Definition activate (k : list tok) (l : list lst) : list lst * dres :=
   if has lkey k l then (map (fun y => if toks_eqb (lkey y) k then set_active y else y) l, DOk)
   else (l, DNotFound).
 
+(** [ConfigState::add_tcp_frontend] / [add_udp_frontend]: a TCP (UDP) address bound to
+    another cluster takes no frontend of this one *)
+Definition bound_elsewhere (t : tfront) (l : list tfront) : bool :=
+  existsb (fun y => Bool.eqb (t_udp y) (t_udp t) && bytes_eqb (t_addr y) (t_addr t)
+                    && negb (bytes_eqb (t_cluster y) (t_cluster t))) l.
+
 (** [ConfigState::dispatch] *)
 Definition dispatch (s : state) (r : request) : state * dres :=
   match r with
@@ -561,6 +574,7 @@ Definition dispatch (s : state) (r : request) : state * dres :=
     let '(x, d) := add_skip certkey (a, fp) (s_certs s) in
     (mk_state (s_listeners s) (s_clusters s) (s_fronts s) (s_tfronts s) (s_backends s) x, d)
   | RAddTFront t =>
+    if bound_elsewhere t (s_tfronts s) then (s, DExists) else
     let '(x, d) := add_new tkey t (s_tfronts s) in
     (mk_state (s_listeners s) (s_clusters s) (s_fronts s) x (s_backends s) (s_certs s), d)
   | RAddBackend b =>
